@@ -361,9 +361,22 @@ def check_join(res, A, spec, rng):
         product = etgen.is_product(lev['boxes'])
         res['observations'] += 1
         tags = tagset(spec, rl)
+        mine = dict(cut)
+        snap = {k: v.copy() for k, v in mine.items()}
         try:
             with common.Quiet():
-                out = reading.fixij(reading.join_chunks(dict(cut)))
+                out = reading.fixij(reading.join_chunks(mine))
+        except Exception:
+            out = None
+        res['observations'] += 1
+        if list(mine) != list(snap) or any(not np.array_equal(mine[k], snap[k]) for k in snap):
+            common.add_violation(res, "join_chunks modifies the caller's dictionary of chunks",
+                                 {"chunks_before": len(snap), "chunks_after": len(mine)})
+            continue
+        try:
+            if out is None:
+                with common.Quiet():
+                    out = reading.fixij(reading.join_chunks(dict(cut)))
         except Exception as e:
             if product:
                 common.add_violation(res, f"join_chunks raises on a rectilinear layout [chunks/axis={tags[3]}]",
